@@ -588,12 +588,14 @@ func (p *Parser) parseASCIIFast(maxSize int) (secs2.Item, error) {
 }
 
 func (p *Parser) checkASCIICloseQuote(idx int, quoteCh byte) (bool, int) {
-	if idx+1 >= p.len || idx >= p.len || p.data[idx] != quoteCh {
+	// idx indexes p.data (the unread rest of the input), so it is bounded by
+	// len(p.data), not by the length of the whole input.
+	if idx+1 >= len(p.data) || p.data[idx] != quoteCh {
 		return false, 0
 	}
 
 	// skip space characters
-	for nidx := idx + 1; nidx < p.len; nidx++ {
+	for nidx := idx + 1; nidx < len(p.data); nidx++ {
 		switch p.data[nidx] {
 		case ' ', '\t', '\r', '\n':
 			continue
